@@ -329,6 +329,15 @@ def run(rep):
             sp = "stepalt" if kind in ("mstdp", "mstdpet") else "pos"
             jobs.append((c08.history_shard, (kind, "dense", (1, 1), T1, 1.0, sign, "cumulative", None, sp)))
             jobs.append((c08.history_shard, (kind, "dense", (2, 2), 2, 1.0, sign, "nearest", None, sp)))
+    # per-sample reward tensors: every (sample, term) is routed by lr sign x reward sign, incl. the pure sign modes where a
+    # uniform reward leaves one part empty
+    for kind in ("mstdp", "mstdpet"):
+        for sign in c08.SIGNS:
+            jobs.append((c08.reduction_shard, (kind, "dense", (1, 1), 1.0, sign, "sum")))
+            jobs.append((c08.multicell_shard, (kind, sign, 3)))
+    for rule in ("da-mstdp", "da-mstdpd"):
+        for sign in c18.SIGNS:
+            jobs.append((c18.multicell_shard, (rule, sign, 3)))
     for rule in ("da-stdp", "da-stdpd", "da-mstdp", "da-mstdpd", "da-kernel", "da-kerneld"):
         for sign in c18.SIGNS:
             jobs.append((c18.shard, (rule, "dense", (1, 1), T1, 1.0, sign, "const")))
